@@ -239,6 +239,26 @@ class Engine:
         f = self.f
         cls, why = model.classify(path)
         targs = self.arg_types(gargs)
+        if path == "<core::mem::manually_drop::ManuallyDrop<T> as core::clone::Clone>::clone" and targs:
+            # `ManuallyDrop<X>: Clone` clones the X and wraps the clone: X's own `clone`, its result hidden from the destructor
+            x = targs[0]
+            n, amb = f.tokens(x)
+            if n and not amb:
+                from . import implsel
+
+                best = implsel.find_impl(f, "core::clone::Clone", (x, {}))
+                mkey = None
+                if best is not None:
+                    for it in best[1]["items"]:
+                        if it["name"] == "clone":
+                            mkey = it["key"]
+                if mkey is not None and mkey in f.bodies:
+                    gm = {k: ({"t": v} if isinstance(v, int) else v) for k, v in best[2].items()}
+                    effs = self.instantiate(self.summary(mkey), gm)
+                    out = [mk(e.exit, e.tag, vadd(e.vec, vec(own=-n)) if e.exit == "ret" else e.vec, e.pcalls, e.notes, e.trace, e.origin) for e in effs]
+                    return (out, "CALL", {"callee": mkey, "via": path})
+            elif not n:
+                return ([mk(v=vec(uclone=1, user=1)), mk(exit="unw", v=vec(uclone=1, user=1), origin="user")], "UCLONE", {"callee": path})
         generic_user = any(f.mentions_param(t) or f.mentions_closure(t) for t in targs)
         if cls is None:
             if generic_user:
